@@ -145,6 +145,8 @@ func init() {
 				probe("pc3noslash", "path-without-leading-slash", gen.RPathNoSlash),
 				probe("pc3noslashbase", "path-without-leading-slash+base", gen.RPathNoSlash, gen.FBasePath),
 				probe("pc3basenoslash", "base-without-leading-slash", gen.RBaseNoSlash, gen.FBasePath),
+				probe("pc3trail", "trailing-slash-paths", gen.FTrailingSlash, gen.FBasePath),
+				probe("pc3trailnobase", "trailing-slash-paths-no-base", gen.FTrailingSlash),
 			}
 			return ws
 		},
@@ -196,7 +198,7 @@ func init() {
 		technique: "deterministic simulation: scripted app-handler and error-hook nodes, Go and contract clients as observers, documented error table as oracle",
 	}
 	props["C20"] = &propCfg{
-		id: "C20", level: "exploration", design: "DESIGN.md §4 C20", modes: []string{"mock"}, passes: []string{"rand"}, mock: true,
+		id: "C20", level: "exploration", design: "DESIGN.md §4 C20", modes: []string{"mock"}, passes: []string{"rand", "yield"}, mock: true,
 		quick: tierCfg{worlds: 10, batchSize: 16, checks: 150, timeoutS: 240},
 		thor:  tierCfg{worlds: 80, batchSize: 40, checks: 800, timeoutS: 1800},
 		genCfg: func(seed uint64, name string) gen.Config {
